@@ -94,6 +94,9 @@ def setup_project(sb, scn, variant, backend, extra_conf=None):
     rng.shuffle(order)
     shapes = scn.get("shapes") or {t: [rng.choice(defs.SHAPES), rng.choice(defs.SHAPES)] for t in T}
     sb.reset(first_id=500)
+    from ..sandbox import BASE_TIME
+
+    sb.base = 0 if variant % 5 == 2 else BASE_TIME      # logical mtime 0 = the epoch itself for a share of the projects
     sb.write("workflow.py", workflow_text(scn, perm, order, shapes))
     for f, m in scn["fs"].items():
         sb.set_file(f, m)
@@ -144,7 +147,9 @@ def drive_cli(item):
     sb = sandbox()
     perm, inv, trk, shapes = setup_project(sb, scn, variant, backend)
     sub = variant % 17 == 0  # a fresh interpreter for a sample
-    sel = [perm[t] for t in scn["sel"]]
+    from ..sandbox import pattern_for
+
+    sel = [pattern_for(perm[t], (variant + k) % 5) for k, t in enumerate(scn["sel"])]
     # for a share of the "none given" scenarios: patterns that match no target (typo, unmatched glob)
     nomatch = scn.get("nomatch", (not sel) and variant % 4 == 1)
     if nomatch:
